@@ -141,7 +141,7 @@ class Gen:
         pt = any(o.startswith("store") for o in opts) and r.random() < (0.5 if self.focus in ("C13", "C20", "C06") else 0.15)
         if pt:
             opts.append("ptimeout")
-        if self.focus == "C20" and "obs" in opts and r.random() < 0.4:
+        if "obs" in opts and r.random() < {"C20": 0.4, "C08": 0.5, "C06": 0.3}.get(self.focus, 0.0):
             opts[opts.index("obs")] = "otel"      # the real OpenTelemetry implementation over the SDK recorders
         r.shuffle(opts)
         lines.append("opts " + " ".join(opts))
